@@ -42,46 +42,7 @@ ND == e.a[9]
 Data == SubSeq(e.a, 10, 9 + ND)
 WireIn == Drop(e.a, 10 + ND)
 
-RECURSIVE FlatW(_, _)
-FlatW(tr, fs) == IF fs = <<>> THEN <<>> ELSE Wire(tr, Head(fs)) \o FlatW(tr, Tail(fs))
-(* observation: rc errid allocs frees badfree live ncalls <call> -7 <reply wire> *)
-RxObs(rc, errid, allocs, call, replies) ==
-    <<rc, errid, allocs, allocs, 0, 0, IF call = <<>> THEN 0 ELSE 1>> \o call \o <<-7>> \o FlatW(RTr, replies)
-
-(* the set of observations the specification allows for this input *)
-RxAllowed ==
-    LET u == Unframe(RTr, WireIn)
-        o == u.frame
-        hdr == Take(o, MinOf(Len(o), 16))
-    IN IF u.st # "ok"
-       THEN \* channel error: returned as an error, any block already obtained is released by the receiver
-            {RxObs(-1, 0, k, <<>>, <<>>) : k \in (IF o = <<>> /\ RTr = 0 THEN {0} ELSE {0, 1})}
-       ELSE IF o = <<>>
-       THEN {RxObs(0, C_ENC, k, <<>>, <<MetaMessage(RTr, M_HEADERENC)>>) : k \in {0, 1}}
-       ELSE IF AllocFail
-       THEN \* claimed for well-formed requests only: busy response echoing sequence and address
-            IF Classes(o) = {C_OK} /\ IsRequest(o)
-            THEN {RxObs(0, 16, 0, <<>>, <<ErrResponse(RTr, Fields(o).type, EBUSY, Fields(o).sq, Fields(o).addr, <<0, 0>>)>>)}
-            ELSE {<<-9>>}
-       ELSE IF Len(o) > Cfg.cap
-       THEN IF Cfg.cap >= 16 /\ Len(o) >= 16 /\ Classes(o) \cap {C_ENC, C_HDCRC} = {} /\ IsRequest(o)
-            THEN {RxObs(0, 12, 1, <<>>, <<ErrResponse(RTr, Fields(o).type, code, Fields(o).sq, Fields(o).addr, <<0, Cfg.cap>>)>>)
-                    : code \in {ERXOVERFLOW}}
-                 \cup {RxObs(0, 12, 1, <<>>, <<FrameOctets(RespType(Fields(o).type), Opts(RTr, FALSE, FALSE), ERXOVERFLOW,
-                                                            Fields(o).sq, Fields(o).addr, <<0, 0>>, <<>>)>>)}
-            ELSE {<<-9>>}
-       ELSE UNION {
-              LET f == Fields(o)
-                  isRead == cls = C_OK /\ Len(o) >= 12 /\ f.type = T_RREQ /\ (Has(f.opts, O_WS16) <=> Cfg.mem16)
-                  served == {TRUE, FALSE} \ ((IF isRead /\ ReadFits(Cfg, o) THEN {FALSE} ELSE {})
-                                             \cup (IF isRead /\ ReadTooBig(Cfg, o) THEN {TRUE} ELSE {})
-                                             \cup (IF ~isRead THEN {FALSE} ELSE {}))
-              IN {LET call == IF isRead /\ ~sv THEN <<>> ELSE IF Len(o) >= 12 THEN BackendCall(Cfg, o, cls) ELSE <<>>
-                      verdict == IF isRead /\ ~sv THEN ETXOVERFLOW ELSE Verdict
-                      data == IF isRead /\ sv /\ Verdict = ACK THEN Take(Data \o Fill(8192, 225), f.bs[2] * WordSize(f.opts)) ELSE <<>>
-                      replies == IF Len(o) < 12 THEN <<MetaMessage(RTr, M_HEADERENC)>> ELSE ReplyFor(Cfg, o, cls, verdict, VAddr, data)
-                  IN RxObs(0, cls, 1, call, replies) : sv \in served}
-              : cls \in Classes(o)}
+RxAllowed == RxAllowedFor(Cfg, AllocFail, Verdict, VAddr, Data, WireIn)
 
 (* a cycle of a persistent session (several framed units in one stream, one instance): as rx, and the cycle must
    have taken exactly the unit from the stream - the first observation is the number of octets consumed *)
